@@ -5,6 +5,7 @@ import (
 	"crypto/sha1"
 	"encoding/hex"
 	"fmt"
+	"math/rand"
 	"os"
 	"path/filepath"
 	"regexp"
@@ -22,7 +23,7 @@ func init() { register(c14{}) }
 
 func (c14) ID() string { return "C14" }
 func (c14) Rule() string {
-	return "history monitor on the real gts binary (built with hooks H1/H2, scratch HOME/XDG_CACHE_HOME/TMPDIR): for each of the 19 cached subcommands a base invocation a and neighbours a' that differ from a in exactly one thing (each boolean option toggled, each valued option changed, each positional changed, the content of a secondary input changed under the same path, the primary input changed, -F switched); histories over one cache directory: [a,a], [a,a',a], [a',a,a',a], [a -o f, a], [a, a -o f, a], and with failing inputs [bad,bad], [bad,good,bad]. Oracle: every invocation's (output bytes on stdout or in the -o file, exit status) equals the memoised result of the same command with --no-cache in a pristine environment. The H2 event log must show a real cache hit for every command (else inconclusive); the option table is cross-checked against `gts <cmd> --help`. non-trivial: a history whose neighbour references differ (the changed thing matters on that input) or that contains a real hit; distinct: (argv, input digests, history shape)."
+	return "history monitor on the real gts binary (built with hooks H1/H2, scratch HOME/XDG_CACHE_HOME/TMPDIR): for each of the 19 cached subcommands a base invocation a and neighbours a' that differ from a in exactly one thing (each boolean option toggled, each valued option changed, each positional changed, the content of a secondary input changed under the same path, the primary input changed, -F switched); histories over one cache directory: [a,a], [a,a',a], [a',a,a',a], [a -o f, a], [a, a -o f, a], with failing inputs [bad,bad], [bad,good,bad], and [a,b,a,b] where b is another subcommand given a's arguments and input (every ordered pair of subcommands), and [a,a,a -o f,a] on a 2.6 MB three-record FASTA stream for clear, reverse, complement, sort. Oracle: every invocation's (output bytes on stdout or in the -o file, exit status) equals the memoised result of the same command with --no-cache in a pristine environment. The H2 event log must show a real cache hit for every command (else inconclusive); the option table is cross-checked against `gts <cmd> --help`. non-trivial: a history whose neighbour references differ (the changed thing matters on that input) or that contains a real hit; distinct: (argv, input digests, history shape)."
 }
 func (c14) Assumptions() []string {
 	return []string{"the --no-cache run in a pristine environment is the reference (memoised per argv+input digests)", "stderr is not compared", "one gts process at a time per cache directory", "Go toolchain; hooks H1/H2 only observe"}
@@ -35,7 +36,7 @@ func (c14) RequiredBuckets(tier string) []string {
 	for _, k := range c14Commands {
 		out = append(out, "cmd:"+k, "hit:"+k)
 	}
-	out = append(out, "shape:a,a", "shape:a,a',a", "shape:-o", "shape:bad,bad", "aspect:option", "aspect:positional", "aspect:secondary-input", "aspect:primary-input", "aspect:format", "help-crosscheck")
+	out = append(out, "shape:a,b,a,b", "aspect:command", "input:multi-MiB", "shape:a,a", "shape:a,a',a", "shape:-o", "shape:bad,bad", "aspect:option", "aspect:positional", "aspect:secondary-input", "aspect:primary-input", "aspect:format", "help-crosscheck")
 	return out
 }
 func (c14) Findings() []fw.Finding { return nil }
@@ -342,6 +343,21 @@ func (x *c14run) loadInputs() error {
 		"bad-second.gb":        append(append([]byte{}, part...), phix[:len(phix)/2]...),
 		"empty":                {},
 	}
+	// three FASTA records, 2.6 MB together.
+	var big bytes.Buffer
+	br := rand.New(rand.NewSource(14))
+	for rec := 0; rec < 3; rec++ {
+		fmt.Fprintf(&big, ">big%d\n", rec)
+		for l := 0; l < 12000+rec*500; l++ {
+			line := make([]byte, 70)
+			for i := range line {
+				line[i] = "acgtacgtnryk"[br.Intn(12)]
+			}
+			big.Write(line)
+			big.WriteByte('\n')
+		}
+	}
+	x.inputs["big.fasta"] = big.Bytes()
 	return nil
 }
 
@@ -540,6 +556,58 @@ func (m c14) Run(c *fw.Ctx) {
 			if c.NextShared() {
 				x.history(p.name, "bad,good,bad", "primary-input", "failing input "+bad+", good, failing", []inv{b, a, b, a}, true)
 			}
+		}
+	}
+	// an output of several MiB (many deflate blocks, many writes) is replayed whole.
+	doneBig := map[string]bool{}
+	for _, p := range plans {
+		if doneBig[p.name] || p.base.stdin != "phix.gb" || (p.name != "clear" && p.name != "reverse" && p.name != "complement" && p.name != "sort") {
+			continue
+		}
+		doneBig[p.name] = true
+		if !c.NextShared() {
+			continue
+		}
+		a := p.base
+		a.stdin = "big.fasta"
+		x.history(p.name, "a,a", "primary-input", "multi-MiB input and output", []inv{a, a, a.withOut("big.out"), a}, true)
+		c.Bucket("input:multi-MiB")
+	}
+	// two different commands given the same arguments and input over one cache
+	// directory: the command itself is part of what an entry answers. (Pairs
+	// where the other command rejects the arguments are skipped.)
+	names := []string{}
+	seenName := map[string]bool{}
+	for _, p := range plans {
+		if !seenName[p.name] {
+			seenName[p.name] = true
+			names = append(names, p.name)
+		}
+	}
+	for _, p := range plans {
+		if len(p.base.args) == 0 || p.base.args[0] != p.name {
+			continue
+		}
+		for _, other := range names {
+			if other == p.name {
+				continue
+			}
+			if !c.NextShared() {
+				continue
+			}
+			b := p.base
+			b.args = append([]string{other}, p.base.args[1:]...)
+			ra, rb := x.reference(p.base), x.reference(b)
+			if rb.exit != 0 || rb.bad != "" {
+				// gts <other> does not accept these arguments: a usage error,
+				// raised while the command line is parsed (where appending
+				// --no-cache for the reference run changes what is parsed),
+				// long before any cache is consulted. Not a history.
+				c.Skip("the other subcommand rejects these arguments (usage error)")
+				continue
+			}
+			differ := ra.exit == 0 && !bytes.Equal(ra.out, rb.out)
+			x.history(p.name, "a,b,a,b", "command", "the same arguments given to gts "+other, []inv{p.base, b, p.base, b}, differ)
 		}
 	}
 }
